@@ -1,11 +1,74 @@
 import EpdVerif.Drivers.Dsl
 import EpdVerif.Gen.Epd5in83b_v2
-/-! model of `src/epd5in83b_v2/mod.rs` (STUB: programs not yet transcribed) -/
+/-! model of `src/epd5in83b_v2/mod.rs` -/
 namespace EpdVerif.Drivers.Epd5in83b_v2
 open EpdVerif
 open EpdVerif.Gen.Epd5in83b_v2
 
-def prog (_f : Feat) (_d : DState) : Op → Option (List Act)
+def W : Act := .wait IS_BUSY_LOW
+
+def sendResolution : List Act :=
+  [.cmd Command.TconResolution, .data [shr8 WIDTH 8], .data [u8 WIDTH],
+   .data [shr8 HEIGHT 8], .data [u8 HEIGHT]]
+
+def init : List Act :=
+  [.reset 10000 10000] ++
+  cmdData Command.BoosterSoftStart [0x17, 0x17, 0x1e, 0x17] ++
+  cmdData Command.PowerSetting [0x07, 0x07, 0x3F, 0x3F] ++
+  [.cmd Command.PowerOn, .delayUs 5000, W] ++
+  cmdData Command.PanelSetting [0x0F] ++
+  sendResolution ++
+  cmdData Command.DualSPI [0x00] ++
+  cmdData Command.VcomAndDataIntervalSetting [0x11, 0x07] ++
+  cmdData Command.TconSetting [0x22] ++
+  [W]
+
+def updateAchromatic (b : Bytes) : List Act := [W] ++ cmdData Command.DataStartTransmission1 b
+def updateChromatic (c : Bytes) : List Act := [W] ++ cmdData Command.DataStartTransmission2 c
+
+def updateFrame (d : DState) (b : Bytes) : List Act :=
+  [W] ++ updateAchromatic b ++
+  [.cmd Command.DataStartTransmission2, .rep (byteValue d.bg) NUM_DISPLAY_BITS]
+
+def displayFrame : List Act := [.cmd Command.DisplayRefresh, W]
+
+/-- `update_partial_frame`: the window bytes with the Rust's casts (`as` binds tighter than
+    `>>` and `&`, so the `u8` truncation happens before the shift / mask) -/
+def updatePartial (b : Bytes) (x y w h : Nat) : List Act :=
+  let hrstUpper : UInt8 := u8 (x / 8) >>> 6
+  let hrstLower : UInt8 := u8 ((x / 8) <<< 3)
+  let hredUpper : UInt8 := u8 ((x + w) / 8) >>> 6
+  let hredLower : UInt8 := u8 (((x + w) / 8) <<< 3) &&& 0b111
+  let vrstUpper : UInt8 := shr8 y 8
+  let vrstLower : UInt8 := u8 y
+  let vredUpper : UInt8 := shr8 (y + h) 8
+  let vredLower : UInt8 := u8 (y + h)
+  let ptScan : UInt8 := 0x01
+  [W, .cmd Command.PartialIn, .cmd Command.PartialWindow,
+   .data [hrstUpper, hrstLower, hredUpper, hredLower, vrstUpper, vrstLower, vredUpper,
+          vredLower, ptScan],
+   .cmd Command.DataStartTransmission1, .data b,
+   .cmd Command.DataStartTransmission2, .rep 0x00 (w * h / 8),
+   .cmd Command.DisplayRefresh, W,
+   .cmd Command.PartialOut]
+
+def prog (_f : Feat) (d : DState) : Op → Option (List Act)
+  | .new => some init
+  | .wake => some init
+  | .sleep => some ([W, .cmd Command.PowerOff, W] ++ cmdData Command.DeepSleep [0xA5])
+  | .upd b => some (updateFrame d b)
+  | .part b x y w h => some (updatePartial b x y w h)
+  | .disp => some displayFrame
+  | .updisp b => some (updateFrame d b ++ displayFrame)
+  | .clear =>
+    some [W, .cmd Command.DataStartTransmission1, .rep 0xFF NUM_DISPLAY_BITS,
+          .cmd Command.DataStartTransmission2, .rep 0x00 NUM_DISPLAY_BITS]
+  | .bg c => some [.upd (fun d => { d with bg := c })]
+  | .lut _ => some [.panic]
+  | .wait => some [W]
+  | .color b c => some (updateAchromatic b ++ updateChromatic c)
+  | .achro b => some (updateAchromatic b)
+  | .chro c => some (updateChromatic c)
   | _ => none
 
 def panel (f : Feat) : Panel :=
